@@ -48,7 +48,18 @@ pub fn solve_deltas(rng: &mut Prng, n: usize, mask: u64) -> Option<Vec<u32>> {
 /// `v & mask == target & mask` (e.g. target = pool0, mask = all ones: the collection returns the value
 /// the previous one returned - a fixed point).
 pub fn solve_deltas_from(rng: &mut Prng, pool0: u64, n: usize, mask: u64, target: u64) -> Option<Vec<u32>> {
-    let pure_value = |d: &[u32]| pure_value_from(pool0, d) ^ target;
+    solve_deltas_xf(rng, pool0, n, mask, target, |v| v)
+}
+
+/// halves of a value compared with each other: `fold_halves(v) & MASK_LO == 0` iff low half == high half
+pub fn fold_halves(v: u64) -> u64 {
+    v ^ (v >> 32)
+}
+
+/// The same with a GF(2)-linear transform `xf` applied to the value first (e.g. `fold_halves`: a
+/// RELATION between parts of the value instead of a fixed pattern).
+pub fn solve_deltas_xf(rng: &mut Prng, pool0: u64, n: usize, mask: u64, target: u64, xf: fn(u64) -> u64) -> Option<Vec<u32>> {
+    let pure_value = |d: &[u32]| xf(pure_value_from(pool0, d) ^ target);
     let nvars = 31 * n;
     if nvars > 128 {
         return None;
@@ -270,5 +281,54 @@ pub fn wrapping_second_difference(rng: &mut Prng) -> [i64; 3] {
         if z > -(1i64 << 31) && z < (1i64 << 31) && z != 0 && z != y && x != y {
             return [x, y, z];
         }
+    }
+}
+
+
+/// The 64-bit word `x` with `lfsr_fold(pool, x) == target` (one fold of a full 64-bit time stamp, as
+/// `timer_stats` and every probe of `test_timer` do): the fold is affine in `x` over GF(2).
+pub fn solve_fold_to(pool: u64, target: u64) -> Option<u64> {
+    let c = lfsr_fold(pool, 0);
+    let cols: Vec<u64> = (0..64).map(|j| lfsr_fold(pool, 1u64 << j) ^ c).collect();
+    // solve sum_j x_j cols[j] = target ^ c by elimination on a 64 x 65 system (rows = bits)
+    let rhs = target ^ c;
+    let mut rows: Vec<(u64, bool)> = (0..64).map(|b| {
+        let mut r = 0u64;
+        for (j, col) in cols.iter().enumerate() {
+            if (col >> b) & 1 == 1 {
+                r |= 1 << j;
+            }
+        }
+        (r, (rhs >> b) & 1 == 1)
+    }).collect();
+    let mut piv_of_col = [usize::MAX; 64];
+    let mut rank = 0usize;
+    for col in 0..64 {
+        if let Some(p) = (rank..64).find(|r| (rows[*r].0 >> col) & 1 == 1) {
+            rows.swap(rank, p);
+            let (pr, pb) = rows[rank];
+            for r in 0..64 {
+                if r != rank && (rows[r].0 >> col) & 1 == 1 {
+                    rows[r].0 ^= pr;
+                    rows[r].1 ^= pb;
+                }
+            }
+            piv_of_col[col] = rank;
+            rank += 1;
+        }
+    }
+    if rows[rank..].iter().any(|r| r.0 == 0 && r.1) {
+        return None;
+    }
+    let mut x = 0u64;
+    for col in 0..64 {
+        if piv_of_col[col] != usize::MAX && rows[piv_of_col[col]].1 {
+            x |= 1 << col;
+        }
+    }
+    if lfsr_fold(pool, x) == target {
+        Some(x)
+    } else {
+        None
     }
 }
